@@ -105,6 +105,11 @@ func genSearchScenario(rng *rand.Rand, profile string, thorough bool) *SearchSce
 			budget = 45_000_000
 		}
 		sc.Steps = []SearchStep{{Req: Request{Limits: Limits{Nodes: budget, Depth: 50 + rng.IntN(14)}, StopAtPoll: -1, Output: true}, Play: ""}}
+		if rng.IntN(3) == 0 {
+			// a ponder search that is never hit runs into the ply cap on these roots
+			sc.StartFEN = pick(rng, []string{"k7/8/8/p1p1p1p1/P1P1P1P1/8/8/K7 w - - 0 1", "8/8/8/8/8/k7/8/K7 w - - 0 1", "7k/8/8/p7/P7/8/8/K7 w - - 0 1"})
+			sc.Steps[0].Req = Request{Limits: Limits{Nodes: -1, Depth: 1 + rng.IntN(8)}, StopAtPoll: 400_000 + rng.IntN(150_000), Ponder: true, Output: true}
+		}
 		return sc
 	case "tiny":
 		// a long random walk searched shallowly at every ply on a table of one to
@@ -179,8 +184,8 @@ func genSearchScenario(rng *rand.Rand, profile string, thorough bool) *SearchSce
 		sc.Twins = 1 + rng.IntN(2)
 		sc.Noise = rng.IntN(2) == 0
 		n := 3 + rng.IntN(8)
-		if thorough && rng.IntN(20) == 0 {
-			n = 270 // generation counter wrap
+		if rng.IntN(40) == 0 || (thorough && rng.IntN(12) == 0) {
+			n = 258 + rng.IntN(40) // generation counter wrap
 		}
 		selfplay := rng.IntN(3) != 0
 		noCounters := rng.IntN(3) == 0 // the whole game is played the way the UCI driver calls the search
